@@ -391,6 +391,13 @@ SHAPES_SET = {
     "shq/100.PortNoInt.1.0.dsdl": "float32 x\n@sealed\n",
     "shq/101.PortBoolOnly.1.0.dsdl": "bool x\n@extent 8\n",
     "shq/7000.EmptyPort.1.0.dsdl": "@sealed\n",
+    "shq/0.PortZeroNoInt.1.0.dsdl": "float32 x\n@sealed\n",          # the smallest port-ID is falsy in a template condition
+    "shq/8191.PortMaxEmpty.1.0.dsdl": "@extent 0\n",
+    "shq/511.SvcPortMaxNoInt.1.0.dsdl": "float64 x\n@sealed\n---\nbool y\n@sealed\n",
+    # capacities at and around the limits of the length prefix types (comparisons with them must not be tautological)
+    "shq/CapEdges.1.0.dsdl": "uint8[<=254] a\nuint8[<=255] b\nuint8[<=256] c\nbool[<=65535] d\nbool[<=65536] e\nuint16[<=255] f\nshq.Empty.1.0[<=255] g\n@sealed\n",
+    "shq/CapEdgesU.1.0.dsdl": "@union\nuint8[<=255] b\nbool[<=65535] d\nfloat32[<=255] f\n@extent 80000 * 8\n",
+    "shq/0.SvcCapEdges.1.0.dsdl": "uint8[<=255] b\n@sealed\n---\nint64[<=255] r\n@extent 4096 * 8\n",
     "shq/7001.EmptyPortDelim.1.0.dsdl": "@extent 0\n",
     "shq/200.SvcNoInt.1.0.dsdl": "bool x\n@sealed\n---\nfloat32 y\n@sealed\n",
     "shq/201.SvcEmptyReq.1.0.dsdl": "@sealed\n---\nuint8 y\n@sealed\n",
@@ -398,6 +405,11 @@ SHAPES_SET = {
     "shq/SvcPadOnly.1.0.dsdl": "void16\n@sealed\n---\nvoid1\n@extent 64\n",
     "shq/SvcUnions.1.0.dsdl": "@union\nuint8 a\nshq.Empty.1.0 e\n@sealed\n---\n@union\nshq.Empty.1.0 e\nshq.PadOnly.1.0 p\n@extent 64\n",
     "shq/Empty.1.0.dsdl": "@sealed\n",
+    # attribute names equal to the names generated code gives its own parameters, locals and helpers
+    "shq/InternalNames.1.0.dsdl": "uint8[<=3] allocator\nuint8 rhs\nuint8 obj\nuint8 out_obj\nuint8[<=2] buffer\nuint8 in_buffer\nuint8 out_buffer\nuint8 offset_bits\n"
+                                  "uint8 capacity_bits\nuint8 capacity_bytes\nuint8 other\nuint8 value\nuint8 v\nuint8 x\nuint8 result\nuint8 count\nuint8 elements\n@sealed\n",
+    "shq/InternalNamesU.1.0.dsdl": "@union\nuint8[<=3] allocator\nuint8 rhs\nuint8 obj\nuint8 union_value\nuint8 tag\nuint8 index\nuint8 value\nuint8[<=2] v\nuint8 count\n@sealed\n",
+    "shq/InternalNamesPy.1.0.dsdl": "uint8 self_\nuint8 cls_\nuint8 np\nuint8 numpy\nuint8 pydsdl\nuint8 nunavut_support\nuint8[<=2] x\nuint8 deserialize\nuint8 serialize\n@sealed\n",
     "shq/IntConstOnly.1.0.dsdl": "uint8 A = 1\nint64 B = -9223372036854775808\n@sealed\n",
     "shq/FloatConstOnly.1.0.dsdl": "float32 A = 1.5\nfloat64 B = 1e300\n@sealed\n",
     "shq/BoolConstOnly.1.0.dsdl": "bool A = true\n@sealed\n",
